@@ -206,6 +206,150 @@ Definition src_it_diff_U8_U64 : list effect :=
 Definition src_it_diff_U8_U8 : list effect :=
   [ (Return (ECast I8 (EBin OSub I32 (ECast I32 (EVar "index")) (ECast I32 (EVar "rhs.index"))))) ].
 
+Definition src_it_eq_U16_U16 : list effect :=
+  [ (Return (ECmp CEq (ECast I32 (EVar "lhs.index")) (ECast I32 (EVar "rhs.index")))) ].
+
+Definition src_it_eq_U16_U32 : list effect :=
+  [ (Return (ECmp CEq (ECast I32 (EVar "lhs.index")) (ECast I32 (EVar "rhs.index")))) ].
+
+Definition src_it_eq_U16_U64 : list effect :=
+  [ (Return (ECmp CEq (ECast I32 (EVar "lhs.index")) (ECast I32 (EVar "rhs.index")))) ].
+
+Definition src_it_eq_U16_U8 : list effect :=
+  [ (Return (ECmp CEq (ECast I32 (EVar "lhs.index")) (ECast I32 (EVar "rhs.index")))) ].
+
+Definition src_it_eq_U32_U16 : list effect :=
+  [ (Return (ECmp CEq (EVar "lhs.index") (EVar "rhs.index"))) ].
+
+Definition src_it_eq_U32_U32 : list effect :=
+  [ (Return (ECmp CEq (EVar "lhs.index") (EVar "rhs.index"))) ].
+
+Definition src_it_eq_U32_U64 : list effect :=
+  [ (Return (ECmp CEq (EVar "lhs.index") (EVar "rhs.index"))) ].
+
+Definition src_it_eq_U32_U8 : list effect :=
+  [ (Return (ECmp CEq (EVar "lhs.index") (EVar "rhs.index"))) ].
+
+Definition src_it_eq_U64_U16 : list effect :=
+  [ (Return (ECmp CEq (EVar "lhs.index") (EVar "rhs.index"))) ].
+
+Definition src_it_eq_U64_U32 : list effect :=
+  [ (Return (ECmp CEq (EVar "lhs.index") (EVar "rhs.index"))) ].
+
+Definition src_it_eq_U64_U64 : list effect :=
+  [ (Return (ECmp CEq (EVar "lhs.index") (EVar "rhs.index"))) ].
+
+Definition src_it_eq_U64_U8 : list effect :=
+  [ (Return (ECmp CEq (EVar "lhs.index") (EVar "rhs.index"))) ].
+
+Definition src_it_eq_U8_U16 : list effect :=
+  [ (Return (ECmp CEq (ECast I32 (EVar "lhs.index")) (ECast I32 (EVar "rhs.index")))) ].
+
+Definition src_it_eq_U8_U32 : list effect :=
+  [ (Return (ECmp CEq (ECast I32 (EVar "lhs.index")) (ECast I32 (EVar "rhs.index")))) ].
+
+Definition src_it_eq_U8_U64 : list effect :=
+  [ (Return (ECmp CEq (ECast I32 (EVar "lhs.index")) (ECast I32 (EVar "rhs.index")))) ].
+
+Definition src_it_eq_U8_U8 : list effect :=
+  [ (Return (ECmp CEq (ECast I32 (EVar "lhs.index")) (ECast I32 (EVar "rhs.index")))) ].
+
+Definition src_it_ge_U16_U16 : list effect :=
+  [ (Return (ECmp CGe (ECast I32 (EVar "lhs.index")) (ECast I32 (EVar "rhs.index")))) ].
+
+Definition src_it_ge_U16_U32 : list effect :=
+  [ (Return (ECmp CGe (ECast I32 (EVar "lhs.index")) (ECast I32 (EVar "rhs.index")))) ].
+
+Definition src_it_ge_U16_U64 : list effect :=
+  [ (Return (ECmp CGe (ECast I32 (EVar "lhs.index")) (ECast I32 (EVar "rhs.index")))) ].
+
+Definition src_it_ge_U16_U8 : list effect :=
+  [ (Return (ECmp CGe (ECast I32 (EVar "lhs.index")) (ECast I32 (EVar "rhs.index")))) ].
+
+Definition src_it_ge_U32_U16 : list effect :=
+  [ (Return (ECmp CGe (EVar "lhs.index") (EVar "rhs.index"))) ].
+
+Definition src_it_ge_U32_U32 : list effect :=
+  [ (Return (ECmp CGe (EVar "lhs.index") (EVar "rhs.index"))) ].
+
+Definition src_it_ge_U32_U64 : list effect :=
+  [ (Return (ECmp CGe (EVar "lhs.index") (EVar "rhs.index"))) ].
+
+Definition src_it_ge_U32_U8 : list effect :=
+  [ (Return (ECmp CGe (EVar "lhs.index") (EVar "rhs.index"))) ].
+
+Definition src_it_ge_U64_U16 : list effect :=
+  [ (Return (ECmp CGe (EVar "lhs.index") (EVar "rhs.index"))) ].
+
+Definition src_it_ge_U64_U32 : list effect :=
+  [ (Return (ECmp CGe (EVar "lhs.index") (EVar "rhs.index"))) ].
+
+Definition src_it_ge_U64_U64 : list effect :=
+  [ (Return (ECmp CGe (EVar "lhs.index") (EVar "rhs.index"))) ].
+
+Definition src_it_ge_U64_U8 : list effect :=
+  [ (Return (ECmp CGe (EVar "lhs.index") (EVar "rhs.index"))) ].
+
+Definition src_it_ge_U8_U16 : list effect :=
+  [ (Return (ECmp CGe (ECast I32 (EVar "lhs.index")) (ECast I32 (EVar "rhs.index")))) ].
+
+Definition src_it_ge_U8_U32 : list effect :=
+  [ (Return (ECmp CGe (ECast I32 (EVar "lhs.index")) (ECast I32 (EVar "rhs.index")))) ].
+
+Definition src_it_ge_U8_U64 : list effect :=
+  [ (Return (ECmp CGe (ECast I32 (EVar "lhs.index")) (ECast I32 (EVar "rhs.index")))) ].
+
+Definition src_it_ge_U8_U8 : list effect :=
+  [ (Return (ECmp CGe (ECast I32 (EVar "lhs.index")) (ECast I32 (EVar "rhs.index")))) ].
+
+Definition src_it_gt_U16_U16 : list effect :=
+  [ (Return (ECmp CGt (ECast I32 (EVar "lhs.index")) (ECast I32 (EVar "rhs.index")))) ].
+
+Definition src_it_gt_U16_U32 : list effect :=
+  [ (Return (ECmp CGt (ECast I32 (EVar "lhs.index")) (ECast I32 (EVar "rhs.index")))) ].
+
+Definition src_it_gt_U16_U64 : list effect :=
+  [ (Return (ECmp CGt (ECast I32 (EVar "lhs.index")) (ECast I32 (EVar "rhs.index")))) ].
+
+Definition src_it_gt_U16_U8 : list effect :=
+  [ (Return (ECmp CGt (ECast I32 (EVar "lhs.index")) (ECast I32 (EVar "rhs.index")))) ].
+
+Definition src_it_gt_U32_U16 : list effect :=
+  [ (Return (ECmp CGt (EVar "lhs.index") (EVar "rhs.index"))) ].
+
+Definition src_it_gt_U32_U32 : list effect :=
+  [ (Return (ECmp CGt (EVar "lhs.index") (EVar "rhs.index"))) ].
+
+Definition src_it_gt_U32_U64 : list effect :=
+  [ (Return (ECmp CGt (EVar "lhs.index") (EVar "rhs.index"))) ].
+
+Definition src_it_gt_U32_U8 : list effect :=
+  [ (Return (ECmp CGt (EVar "lhs.index") (EVar "rhs.index"))) ].
+
+Definition src_it_gt_U64_U16 : list effect :=
+  [ (Return (ECmp CGt (EVar "lhs.index") (EVar "rhs.index"))) ].
+
+Definition src_it_gt_U64_U32 : list effect :=
+  [ (Return (ECmp CGt (EVar "lhs.index") (EVar "rhs.index"))) ].
+
+Definition src_it_gt_U64_U64 : list effect :=
+  [ (Return (ECmp CGt (EVar "lhs.index") (EVar "rhs.index"))) ].
+
+Definition src_it_gt_U64_U8 : list effect :=
+  [ (Return (ECmp CGt (EVar "lhs.index") (EVar "rhs.index"))) ].
+
+Definition src_it_gt_U8_U16 : list effect :=
+  [ (Return (ECmp CGt (ECast I32 (EVar "lhs.index")) (ECast I32 (EVar "rhs.index")))) ].
+
+Definition src_it_gt_U8_U32 : list effect :=
+  [ (Return (ECmp CGt (ECast I32 (EVar "lhs.index")) (ECast I32 (EVar "rhs.index")))) ].
+
+Definition src_it_gt_U8_U64 : list effect :=
+  [ (Return (ECmp CGt (ECast I32 (EVar "lhs.index")) (ECast I32 (EVar "rhs.index")))) ].
+
+Definition src_it_gt_U8_U8 : list effect :=
+  [ (Return (ECmp CGt (ECast I32 (EVar "lhs.index")) (ECast I32 (EVar "rhs.index")))) ].
+
 Definition src_it_inc_U16_U16 : list effect :=
   [ (Assert (ECond (ECond (EToBool (EVar "ptr")) (ECmp CLe (EVar "ptr") (EVar "end")) (ELit (0))) (ECond (ECmp CLe (ECast U64 (EVar "block_length")) (ECast U64 (EBin OSub I64 (EVar "end") (EVar "ptr")))) (ECmp CLe (ECast U64 (ELit (0))) (EBin OSub U64 (ECast U64 (EBin OSub I64 (EVar "end") (EVar "ptr"))) (ECast U64 (EVar "block_length")))) (ELit (0))) (ELit (0))));
     (PtrAdd "ptr" (ECast I32 (EVar "block_length")));
@@ -285,6 +429,150 @@ Definition src_it_inc_U8_U8 : list effect :=
   [ (Assert (ECond (ECond (EToBool (EVar "ptr")) (ECmp CLe (EVar "ptr") (EVar "end")) (ELit (0))) (ECond (ECmp CLe (ECast U64 (EVar "block_length")) (ECast U64 (EBin OSub I64 (EVar "end") (EVar "ptr")))) (ECmp CLe (ECast U64 (ELit (0))) (EBin OSub U64 (ECast U64 (EBin OSub I64 (EVar "end") (EVar "ptr"))) (ECast U64 (EVar "block_length")))) (ELit (0))) (ELit (0))));
     (PtrAdd "ptr" (ECast I32 (EVar "block_length")));
     (Store "index" (ECast U8 (EBin OAdd I32 (ECast I32 (EVar "index")) (ELit (1))))) ].
+
+Definition src_it_le_U16_U16 : list effect :=
+  [ (Return (ECmp CLe (ECast I32 (EVar "lhs.index")) (ECast I32 (EVar "rhs.index")))) ].
+
+Definition src_it_le_U16_U32 : list effect :=
+  [ (Return (ECmp CLe (ECast I32 (EVar "lhs.index")) (ECast I32 (EVar "rhs.index")))) ].
+
+Definition src_it_le_U16_U64 : list effect :=
+  [ (Return (ECmp CLe (ECast I32 (EVar "lhs.index")) (ECast I32 (EVar "rhs.index")))) ].
+
+Definition src_it_le_U16_U8 : list effect :=
+  [ (Return (ECmp CLe (ECast I32 (EVar "lhs.index")) (ECast I32 (EVar "rhs.index")))) ].
+
+Definition src_it_le_U32_U16 : list effect :=
+  [ (Return (ECmp CLe (EVar "lhs.index") (EVar "rhs.index"))) ].
+
+Definition src_it_le_U32_U32 : list effect :=
+  [ (Return (ECmp CLe (EVar "lhs.index") (EVar "rhs.index"))) ].
+
+Definition src_it_le_U32_U64 : list effect :=
+  [ (Return (ECmp CLe (EVar "lhs.index") (EVar "rhs.index"))) ].
+
+Definition src_it_le_U32_U8 : list effect :=
+  [ (Return (ECmp CLe (EVar "lhs.index") (EVar "rhs.index"))) ].
+
+Definition src_it_le_U64_U16 : list effect :=
+  [ (Return (ECmp CLe (EVar "lhs.index") (EVar "rhs.index"))) ].
+
+Definition src_it_le_U64_U32 : list effect :=
+  [ (Return (ECmp CLe (EVar "lhs.index") (EVar "rhs.index"))) ].
+
+Definition src_it_le_U64_U64 : list effect :=
+  [ (Return (ECmp CLe (EVar "lhs.index") (EVar "rhs.index"))) ].
+
+Definition src_it_le_U64_U8 : list effect :=
+  [ (Return (ECmp CLe (EVar "lhs.index") (EVar "rhs.index"))) ].
+
+Definition src_it_le_U8_U16 : list effect :=
+  [ (Return (ECmp CLe (ECast I32 (EVar "lhs.index")) (ECast I32 (EVar "rhs.index")))) ].
+
+Definition src_it_le_U8_U32 : list effect :=
+  [ (Return (ECmp CLe (ECast I32 (EVar "lhs.index")) (ECast I32 (EVar "rhs.index")))) ].
+
+Definition src_it_le_U8_U64 : list effect :=
+  [ (Return (ECmp CLe (ECast I32 (EVar "lhs.index")) (ECast I32 (EVar "rhs.index")))) ].
+
+Definition src_it_le_U8_U8 : list effect :=
+  [ (Return (ECmp CLe (ECast I32 (EVar "lhs.index")) (ECast I32 (EVar "rhs.index")))) ].
+
+Definition src_it_lt_U16_U16 : list effect :=
+  [ (Return (ECmp CLt (ECast I32 (EVar "lhs.index")) (ECast I32 (EVar "rhs.index")))) ].
+
+Definition src_it_lt_U16_U32 : list effect :=
+  [ (Return (ECmp CLt (ECast I32 (EVar "lhs.index")) (ECast I32 (EVar "rhs.index")))) ].
+
+Definition src_it_lt_U16_U64 : list effect :=
+  [ (Return (ECmp CLt (ECast I32 (EVar "lhs.index")) (ECast I32 (EVar "rhs.index")))) ].
+
+Definition src_it_lt_U16_U8 : list effect :=
+  [ (Return (ECmp CLt (ECast I32 (EVar "lhs.index")) (ECast I32 (EVar "rhs.index")))) ].
+
+Definition src_it_lt_U32_U16 : list effect :=
+  [ (Return (ECmp CLt (EVar "lhs.index") (EVar "rhs.index"))) ].
+
+Definition src_it_lt_U32_U32 : list effect :=
+  [ (Return (ECmp CLt (EVar "lhs.index") (EVar "rhs.index"))) ].
+
+Definition src_it_lt_U32_U64 : list effect :=
+  [ (Return (ECmp CLt (EVar "lhs.index") (EVar "rhs.index"))) ].
+
+Definition src_it_lt_U32_U8 : list effect :=
+  [ (Return (ECmp CLt (EVar "lhs.index") (EVar "rhs.index"))) ].
+
+Definition src_it_lt_U64_U16 : list effect :=
+  [ (Return (ECmp CLt (EVar "lhs.index") (EVar "rhs.index"))) ].
+
+Definition src_it_lt_U64_U32 : list effect :=
+  [ (Return (ECmp CLt (EVar "lhs.index") (EVar "rhs.index"))) ].
+
+Definition src_it_lt_U64_U64 : list effect :=
+  [ (Return (ECmp CLt (EVar "lhs.index") (EVar "rhs.index"))) ].
+
+Definition src_it_lt_U64_U8 : list effect :=
+  [ (Return (ECmp CLt (EVar "lhs.index") (EVar "rhs.index"))) ].
+
+Definition src_it_lt_U8_U16 : list effect :=
+  [ (Return (ECmp CLt (ECast I32 (EVar "lhs.index")) (ECast I32 (EVar "rhs.index")))) ].
+
+Definition src_it_lt_U8_U32 : list effect :=
+  [ (Return (ECmp CLt (ECast I32 (EVar "lhs.index")) (ECast I32 (EVar "rhs.index")))) ].
+
+Definition src_it_lt_U8_U64 : list effect :=
+  [ (Return (ECmp CLt (ECast I32 (EVar "lhs.index")) (ECast I32 (EVar "rhs.index")))) ].
+
+Definition src_it_lt_U8_U8 : list effect :=
+  [ (Return (ECmp CLt (ECast I32 (EVar "lhs.index")) (ECast I32 (EVar "rhs.index")))) ].
+
+Definition src_it_ne_U16_U16 : list effect :=
+  [ (Return (ECmp CNe (ECast I32 (EVar "lhs.index")) (ECast I32 (EVar "rhs.index")))) ].
+
+Definition src_it_ne_U16_U32 : list effect :=
+  [ (Return (ECmp CNe (ECast I32 (EVar "lhs.index")) (ECast I32 (EVar "rhs.index")))) ].
+
+Definition src_it_ne_U16_U64 : list effect :=
+  [ (Return (ECmp CNe (ECast I32 (EVar "lhs.index")) (ECast I32 (EVar "rhs.index")))) ].
+
+Definition src_it_ne_U16_U8 : list effect :=
+  [ (Return (ECmp CNe (ECast I32 (EVar "lhs.index")) (ECast I32 (EVar "rhs.index")))) ].
+
+Definition src_it_ne_U32_U16 : list effect :=
+  [ (Return (ECmp CNe (EVar "lhs.index") (EVar "rhs.index"))) ].
+
+Definition src_it_ne_U32_U32 : list effect :=
+  [ (Return (ECmp CNe (EVar "lhs.index") (EVar "rhs.index"))) ].
+
+Definition src_it_ne_U32_U64 : list effect :=
+  [ (Return (ECmp CNe (EVar "lhs.index") (EVar "rhs.index"))) ].
+
+Definition src_it_ne_U32_U8 : list effect :=
+  [ (Return (ECmp CNe (EVar "lhs.index") (EVar "rhs.index"))) ].
+
+Definition src_it_ne_U64_U16 : list effect :=
+  [ (Return (ECmp CNe (EVar "lhs.index") (EVar "rhs.index"))) ].
+
+Definition src_it_ne_U64_U32 : list effect :=
+  [ (Return (ECmp CNe (EVar "lhs.index") (EVar "rhs.index"))) ].
+
+Definition src_it_ne_U64_U64 : list effect :=
+  [ (Return (ECmp CNe (EVar "lhs.index") (EVar "rhs.index"))) ].
+
+Definition src_it_ne_U64_U8 : list effect :=
+  [ (Return (ECmp CNe (EVar "lhs.index") (EVar "rhs.index"))) ].
+
+Definition src_it_ne_U8_U16 : list effect :=
+  [ (Return (ECmp CNe (ECast I32 (EVar "lhs.index")) (ECast I32 (EVar "rhs.index")))) ].
+
+Definition src_it_ne_U8_U32 : list effect :=
+  [ (Return (ECmp CNe (ECast I32 (EVar "lhs.index")) (ECast I32 (EVar "rhs.index")))) ].
+
+Definition src_it_ne_U8_U64 : list effect :=
+  [ (Return (ECmp CNe (ECast I32 (EVar "lhs.index")) (ECast I32 (EVar "rhs.index")))) ].
+
+Definition src_it_ne_U8_U8 : list effect :=
+  [ (Return (ECmp CNe (ECast I32 (EVar "lhs.index")) (ECast I32 (EVar "rhs.index")))) ].
 
 Definition src_set_bit_U16 : list effect :=
   [ (Store "bits" (ECast U16 (EBin OOr I32 (EBin OAnd I32 (ECast I32 (EVar "bits")) (ENot I32 (EShl I32 (ECast I32 (ECast U16 (ELit (1)))) (ECast I32 (EVar "n"))))) (EShl I32 (ECast I32 (ECast U16 (EVar "b"))) (ECast I32 (EVar "n")))))) ].
